@@ -213,13 +213,65 @@ def pmap(fn, items, seed=0, fresh=True):
                 raise RuntimeError("worker failed:\n" + err)
             results[i] = res
         return results
-    ctx = mp.get_context("fork")
-    with ctx.Pool(min(NWORKERS, n), initializer=_init_worker, maxtasksperchild=1 if fresh else None) as pool:
-        for idx, res, err in pool.imap_unordered(_call, [(fn, i, items[i]) for i in order], chunksize=1):
+    # one freshly forked process per shard (not multiprocessing.Pool: its worker replacement can deadlock, and a shard
+    # must start from the parent's pristine state anyway); results come back through files of a run-private directory
+    import shutil
+    import tempfile
+
+    base = os.path.join(os.environ.get("HGMC_OUT") or VERIF, ".scratch")
+    os.makedirs(base, exist_ok=True)
+    box = tempfile.mkdtemp(prefix="pmap_", dir=base)
+    pending = list(order)
+    running = {}
+    sys.stdout.flush()
+    sys.stderr.flush()
+    try:
+        while pending or running:
+            while pending and len(running) < NWORKERS:
+                i = pending.pop(0)
+                pid = os.fork()
+                if pid == 0:
+                    code = 1
+                    try:
+                        _init_worker()
+                        out = _call((fn, i, items[i]))
+                        tmp = os.path.join(box, "%d.tmp" % i)
+                        with open(tmp, "wb") as f:
+                            pickle.dump(out, f, protocol=pickle.HIGHEST_PROTOCOL)
+                        os.rename(tmp, os.path.join(box, "%d.pkl" % i))
+                        code = 0
+                    except BaseException:
+                        try:
+                            with open(os.path.join(box, "%d.err" % i), "w") as f:
+                                f.write(traceback.format_exc())
+                        except Exception:
+                            pass
+                    finally:
+                        os._exit(code)
+                running[pid] = i
+            pid, status = os.wait()
+            if pid not in running:
+                continue
+            i = running.pop(pid)
+            path = os.path.join(box, "%d.pkl" % i)
+            if not os.path.exists(path):
+                errp = os.path.join(box, "%d.err" % i)
+                msg = open(errp).read() if os.path.exists(errp) else "no result (exit status %r)" % (status,)
+                raise RuntimeError("worker for shard %d failed:\n%s" % (i, msg))
+            with open(path, "rb") as f:
+                idx, res, err = pickle.load(f)
+            os.unlink(path)
             if err:
-                pool.terminate()
                 raise RuntimeError("worker failed:\n" + err)
             results[idx] = res
+    finally:
+        for pid in list(running):
+            try:
+                os.kill(pid, 9)
+                os.waitpid(pid, 0)
+            except OSError:
+                pass
+        shutil.rmtree(box, ignore_errors=True)
     return results
 
 
